@@ -841,6 +841,10 @@ macro_rules! ubig_float_conversions {
 
             fn try_from(value: $t) -> Result<Self, Self::Error> {
                 let (man, exp) = value.decode().map_err(|_| ConversionError::OutOfBounds)?;
+                if exp < 0 && man != 0 && (man.trailing_zeros() as i32) < -(exp as i32) {
+                    // the number has a fractional part
+                    return Err(ConversionError::LossOfPrecision);
+                }
                 let mut result: UBig = man.try_into()?;
                 if exp >= 0 {
                     result <<= exp as usize;
@@ -877,6 +881,10 @@ macro_rules! ibig_float_conversions {
 
             fn try_from(value: $t) -> Result<Self, Self::Error> {
                 let (man, exp) = value.decode().map_err(|_| ConversionError::OutOfBounds)?;
+                if exp < 0 && man != 0 && (man.trailing_zeros() as i32) < -(exp as i32) {
+                    // the number has a fractional part
+                    return Err(ConversionError::LossOfPrecision);
+                }
                 let mut result: IBig = man.into();
                 if exp >= 0 {
                     result <<= exp as usize;
